@@ -180,6 +180,7 @@ def run(ctx):
                 if ea and eb and a != b:
                     x, y = rr.choice([z for z in ea if z != "short"] or [5]), rr.choice([z for z in eb if z != "short"] or [5])
                     jobs.append(((vis[a]["n"], vis[b]["n"]), f"{vis[a]['name']}+{vis[b]['name']}", (x, y), 0))
+        jobs = list(dict.fromkeys(jobs))       # the seeded pairs may repeat: one run (and one run directory) per job
         ctx.count(f"visible_calls[{sc.name}@{sc.mode}]", len(vis))
 
         def one(job, sc=sc, si=si, tdir=tdir):
